@@ -21,7 +21,7 @@ from ..model import AnalysisError, Cls, Func, norm_stmt, parent
 from ..paths import PathFinder, describe_path
 from ..pattern import norm
 from ..terms import Term, alts, attr_chain, contains, root_of, show, subterms
-from ..util import calls_in, module_const, nodes_in
+from ..util import bool_nnf, guard_leaves, nnf_literals, path_condition, calls_in, module_const, nodes_in
 
 P = "C07"
 OPT_BASE = "ropt.plugins.optimizer.base.Optimizer"
@@ -68,29 +68,50 @@ class Anchors:
         self.nc_fields = self._nc_fields()
 
     def _find_validator(self) -> tuple[Func, ast.If]:
-        """The method comparing its variables parameter with a stored key and
-        resetting cached state on mismatch."""
+        """The method comparing its variables parameter with a stored key and storing a new
+        key (together with resets of cached state) when they differ.  Sets ``key_field`` and
+        ``reset_region`` (the statement list holding the key store)."""
         best = None
+        X = self.ctx.X
         for m in self.cls.methods.values():
+            if not m.positional:
+                continue
+            selfname = m.positional[0]
             for n in nodes_in(m, ast.If):
-                t = self.ctx.X.value_at(m, n.test)
-                def is_key_cmp(s, m=m):
+                t = X.value_at(m, n.test)
+                keys = []
+
+                def is_key_cmp(s, m=m, keys=keys):
                     if s[0] == "call" and s[1][0] == "global" and s[1][1] in ("numpy.allclose", "numpy.array_equal", "numpy.array_equiv", "numpy.isclose", "numpy.equal"):
                         args = s[2]
                     elif s[0] == "cmp" and s[1] in ("==", "!="):
                         args = (s[2], s[3])
                     else:
                         return False
-                    return (len(args) >= 2 and any(a[0] == "param" and a[2] != m.positional[0] for a in args)
-                            and any(a[0] == "attr" and root_of(a)[0] == "param" and root_of(a)[2] == m.positional[0] for a in args))
+                    ks = [a for a in args if a[0] == "attr" and root_of(a)[0] == "param" and root_of(a)[2] == m.positional[0]]
+                    if len(args) >= 2 and any(a[0] == "param" and a[2] != m.positional[0] for a in args) and ks:
+                        keys.append(ks[0][2])
+                        return True
+                    return False
 
-                has_cmp = contains(t, is_key_cmp)
-                resets = [x for s in n.body for x in ast.walk(s) if isinstance(x, ast.Assign) and any(isinstance(t2, ast.Attribute) for t2 in x.targets)]
-                if has_cmp and resets:
-                    best = (m, n)
+                if not contains(t, is_key_cmp):
+                    continue
+                # the store of the new key: self.<key> = ...
+                for st in nodes_in(m, ast.Assign):
+                    for tg in st.targets:
+                        if isinstance(tg, ast.Attribute) and isinstance(tg.value, ast.Name) and tg.value.id == selfname and tg.attr in keys:
+                            region = None
+                            par = parent(st)
+                            for fld in ("body", "orelse", "finalbody"):
+                                lst = getattr(par, fld, None)
+                                if isinstance(lst, list) and any(x is st for x in lst):
+                                    region = lst
+                            if region is not None:
+                                best = (m, n, tg.attr, region, st)
         if best is None:
             raise AnalysisError("point validation (allclose against a stored key + resets) not found in the optimizer plug-in")
-        return best
+        self.key_field, self.reset_region, self.key_store = best[2], best[3], best[4]
+        return best[0], best[1]
 
     def _cache_fields(self) -> set[str]:
         """Per-point state of the optimizer object: attributes that ``start``
@@ -186,6 +207,19 @@ def cache_reads(ctx: Ctx, A: Anchors, f: Func) -> list[tuple[ast.AST, str]]:
             and A.nc_field is not None and v.attr == A.nc_field and A.nc_property_field(n.attr) is not None
         ):
             out.append((n, f"{A.nc_field}.{n.attr}"))
+        elif isinstance(v, ast.Name) and not _is_self(ctx, f, v.id) and A.nc_field is not None and A.nc_property_field(n.attr) is not None:
+            # a local alias of the normalised-constraints object: `nc = self.<nc>; nc.<prop>`
+            bt = ctx.X.at(f, v)
+
+            def is_nc(t):
+                while t[0] in ("mut", "setattr", "update"):
+                    t = t[1]
+                if t[0] == "phi":
+                    return any(is_nc(a) for a in t[1])
+                return t[0] == "attr" and t[2] == A.nc_field and t[1][0] == "param"
+
+            if is_nc(bt):
+                out.append((n, f"{A.nc_field}.{n.attr}"))
     return out
 
 
@@ -279,13 +313,17 @@ def c07_2(ctx: Ctx) -> RuleResult:
     V, node = A.validator, A.val_if
     selfname = V.positional[0]
     reset_fields = set()
-    for s in node.body:
+    for s in A.reset_region:
         for x in ast.walk(s):
             if isinstance(x, ast.Assign):
                 for t in x.targets:
                     if isinstance(t, ast.Attribute) and isinstance(t.value, ast.Name) and t.value.id == selfname:
                         reset_fields.add(t.attr)
-    t = ctx.X.value_at(V, node.test)
+    # the condition under which the new key is stored (and the caches reset): enclosing tests and
+    # negated early exits, as one boolean formula in negation normal form
+    pc = path_condition(ctx, V, A.key_store)
+    guard = bool_nnf(("bool", "and", tuple(c if p else ("unary", "not", c) for c, p in pc))) if pc else ("lit", ("const", True), True)
+    t = ("bool", "and", tuple(c for c, _p in pc)) if pc else ("const", True)
     key_fields = {s[2] for s in subterms(t) if s[0] == "attr" and s[1][0] == "param" and s[1][2] == selfname and s[2] in A.cache_fields}
     for fld in sorted(A.cache_fields):
         ok = fld in reset_fields
@@ -296,7 +334,7 @@ def c07_2(ctx: Ctx) -> RuleResult:
     if A.nc_field is not None:
         calls_reset = any(
             isinstance(x, ast.Call) and isinstance(x.func, ast.Attribute) and x.func.attr == "reset" and A.nc_field in ast.unparse(x.func.value)
-            for s in node.body for x in ast.walk(s)
+            for s in A.reset_region for x in ast.walk(s)
         )
         res.add(V, node, "the normalised-constraint cache is reset when the point changes", calls_reset,
                 "" if calls_reset else "normalised constraint values/Jacobians of the previous point survive", construct="invalidation resets normalised constraints")
@@ -310,25 +348,22 @@ def c07_2(ctx: Ctx) -> RuleResult:
             for fld in sorted(A.nc_fields):
                 ok = fld in rs
                 res.add(A.nc_reset, A.nc_reset.node, f"reset() clears `{fld}`", ok, "" if ok else f"reset() leaves `{fld}` set", construct=f"nc.reset clears {fld}")
-    # guard disjuncts
-    if t[0] == "bool" and t[1] == "or":
-        disj = list(t[2])
-    else:
-        disj = [t]
-    has_none = any(d[0] == "cmp" and d[1] == "is" and d[3] == ("const", None) and d[2][0] == "attr" for d in disj)
-    has_shape = any(d[0] == "cmp" and d[1] == "!=" and "shape" in show(d) for d in disj)
-    cmp_calls = [s for d in disj for s in subterms(d) if s[0] == "call" and s[1][0] == "global" and s[1][1] in ("numpy.allclose", "numpy.array_equal", "numpy.array_equiv")]
-    has_close = any(d[0] == "unary" and d[1] == "not" and d[2] in cmp_calls for d in disj)
-    if not has_close:
+    # guard disjuncts: the formula must be a disjunction of literals
+    lits = nnf_literals(guard) if guard[0] in ("or", "lit") else []
+    is_or = guard[0] in ("or", "lit") and all(it[0] == "lit" for it in (guard[1] if guard[0] == "or" else [guard]))
+    CMPS = ("numpy.allclose", "numpy.array_equal", "numpy.array_equiv")
+    has_none = is_or and any(p and a[0] == "cmp" and a[1] == "is" and a[3] == ("const", None) and a[2][0] == "attr" for a, p in lits)
+    has_shape = is_or and any((not p) and a[0] == "cmp" and a[1] == "==" and "shape" in show(a) for a, p in lits)
+    cmp_calls = [s for a, _p in nnf_literals(guard) for s in subterms(a) if s[0] == "call" and s[1][0] == "global" and s[1][1] in CMPS]
+    has_close = is_or and any((not p) and a in cmp_calls for a, p in lits)
+    if not has_close and is_or:
         # element-wise spellings: `not (isclose(a, b)).all()` / `(a != b).any()`; every
         # element of the request (all rows of a batch) must take part: one `all` over
         # everything, never an `any` over rows of matches
-        for d in disj:
-            nd = norm(d)
-            inner = nd[2] if nd[0] == "unary" and nd[1] == "not" else None
-            if inner is not None and inner[0] == "call" and inner[1] == ("global", "numpy.all") and not inner[3] and inner[2] and inner[2][0][0] in ("call", "cmp") and not contains(inner[2][0], lambda s: s[0] == "call" and s[1] in (("global", "numpy.any"), ("global", "numpy.all"))):
+        for a, p in lits:
+            if (not p) and a[0] == "call" and a[1] == ("global", "numpy.all") and not a[3] and a[2] and a[2][0][0] in ("call", "cmp") and not contains(a[2][0], lambda s: s[0] == "call" and s[1] in (("global", "numpy.any"), ("global", "numpy.all"))):
                 has_close = True
-            if nd[0] == "call" and nd[1] == ("global", "numpy.any") and not nd[3] and nd[2] and nd[2][0][0] == "cmp" and nd[2][0][1] == "!=":
+            if p and a[0] == "call" and a[1] == ("global", "numpy.any") and not a[3] and a[2] and a[2][0][0] == "cmp" and a[2][0][1] == "!=":
                 has_close = True
     res.add(V, node, "guard disjunct: no key stored yet (`key is None`)", has_none, "" if has_none else "missing `is None` disjunct", construct="guard: key is None")
     res.add(V, node, "guard disjunct: shape of the request differs from the key's shape", has_shape,
@@ -750,6 +785,11 @@ def c07_5(ctx: Ctx) -> RuleResult:
             reads = [n for n in nodes_in(m, ast.Attribute) if n.attr == fld and isinstance(n.ctx, ast.Load) and isinstance(n.value, ast.Name)]
             if not reads or m is calc or m is init:
                 continue
+            if ctx.X.inlinable(m) and not any(isinstance(x, (ast.Assign, ast.AugAssign)) and any(isinstance(t_, ast.Attribute) for t_ in (x.targets if isinstance(x, ast.Assign) else [x.target])) for x in ast.walk(m.node)):
+                # a transparent helper (e.g. the point test itself): its reads are seen at its call sites
+                rt_ = ctx.X.guarded_return(m)
+                if all(leaf[0] == "const" or leaf[0] == "call" and leaf[1] in (("builtin", "bool"), ("global", "numpy.allclose"), ("global", "numpy.array_equal")) for _c, leaf in guard_leaves(rt_, strip_wrappers=False)):
+                    continue
             if any(w is m for w, _n in writers.get(fld, [])) and not _reads_before_write(ctx, m, fld):
                 continue
             # every call site of m must be guarded
@@ -802,23 +842,36 @@ def _reads_before_write(ctx: Ctx, m: Func, fld: str) -> bool:
 
 
 def _guarded_by_point_check(ctx: Ctx, caller: Func, call: ast.Call, fld: str) -> tuple[bool, str]:
+    """The call executes only where `<fld> is not None` and `allclose(<fld>...variables, <requested variables>)`
+    hold: both must be conjuncts of the condition under which the call is reached (enclosing tests,
+    negated early exits; helpers seen through)."""
+    stmt = call
+    while parent(stmt) is not None and not isinstance(stmt, ast.stmt):
+        stmt = parent(stmt)
+    pc = path_condition(ctx, caller, stmt)
+    # a conditional expression around the call itself
     cur, child = parent(call), call
-    while cur is not None and cur is not caller.node:
-        if isinstance(cur, ast.If) and any(child is s or child in ast.walk(s) for s in cur.body):
-            t = ctx.X.value_at(caller, cur.test)
-            conj = list(t[2]) if t[0] == "bool" and t[1] == "and" else [t]
-            not_none = any(d[0] == "cmp" and d[1] == "is not" and d[3] == ("const", None) and d[2][0] == "attr" and d[2][2] == fld for d in conj)
-            cmp = [d for d in conj if d[0] == "call" and d[1][0] == "global" and d[1][1] in ("numpy.allclose", "numpy.array_equal")]
-            good_cmp = None
-            for c in cmp:
-                a_fld = any(contains(a, lambda s: s[0] == "attr" and s[2] == fld) and contains(a, lambda s: s[0] == "attr" and s[2] == "variables") for a in c[2])
-                a_var = any(a[0] == "param" for a in c[2])
-                if a_fld and a_var:
-                    good_cmp = c
-            if good_cmp is not None and not_none:
-                ok, why = _tolerances_ok(good_cmp)
-                return ok, why
-            if good_cmp is None and (not_none or cmp):
-                return False, f"the guard does not compare `{fld}.evaluations.variables` with the requested variables"
+    while cur is not None and cur is not stmt:
+        if isinstance(cur, ast.IfExp) and child is not cur.test:
+            pc.append((ctx.X.value_at(caller, cur.test), child is cur.body))
         child, cur = cur, parent(cur)
-    return False, f"call is not guarded by a comparison of the cached point with the requested point: gradients would be combined with function values of another point"
+    if not pc:
+        return False, "call is not guarded by a comparison of the cached point with the requested point: gradients would be combined with function values of another point"
+    guard = bool_nnf(("bool", "and", tuple(c if p else ("unary", "not", c) for c, p in pc)))
+    conj = [it for it in (guard[1] if guard[0] == "and" else [guard]) if it[0] == "lit"]
+    lits = [(it[1], it[2]) for it in conj]
+    not_none = any((not p) and a[0] == "cmp" and a[1] == "is" and a[3] == ("const", None) and a[2][0] == "attr" and a[2][2] == fld for a, p in lits)
+    cmp = [a for a, p in lits if p and a[0] == "call" and a[1][0] == "global" and a[1][1] in ("numpy.allclose", "numpy.array_equal")]
+    good_cmp = None
+    for c in cmp:
+        a_fld = any(contains(a, lambda s: s[0] == "attr" and s[2] == fld) and contains(a, lambda s: s[0] == "attr" and s[2] == "variables") for a in c[2])
+        a_var = any(a[0] == "param" for a in c[2])
+        if a_fld and a_var:
+            good_cmp = c
+    if good_cmp is not None and not_none:
+        return _tolerances_ok(good_cmp)
+    if not_none or cmp or any(contains(a, lambda s: s[0] == "attr" and s[2] == fld) for a, _p in nnf_literals(guard)):
+        return False, f"the guard does not compare `{fld}.evaluations.variables` with the requested variables"
+    return False, "call is not guarded by a comparison of the cached point with the requested point: gradients would be combined with function values of another point"
+
+
